@@ -420,7 +420,7 @@ def _cap_bound_one(ctx, rid, fi, loop, acc, tag, head_acc, alg, ev, capatom, sum
     OPS = {'==': operator.eq, '>=': operator.ge, '>': operator.gt, '<=': operator.le, '<': operator.lt,
            '!=': operator.ne}
     worst = None
-    for cap in range(1, 9):
+    for cap in range(1, 33 if ctx.tier == 'thorough' else 9):
         entered = False
         for conds in pre:
             okpath = True
@@ -434,7 +434,7 @@ def _cap_bound_one(ctx, rid, fi, loop, acc, tag, head_acc, alg, ev, capatom, sum
             cols = b0
         else:
             cols = None
-            for k in range(1, cap + 12):
+            for k in range(1, cap + 40):
                 head = a + (k - 1) * (d if cn == '#cols' else 1)
                 if OPS[op](head + c0, cap):
                     cols = b0 + k * d
